@@ -94,6 +94,16 @@ def build():
                    C('C19.reload.file.the_whole_file_is_analysed', '''spec_file(path@) is Some ==> ((r is Refuse) == (parsed(%s, %s).len() == 0))
             && (r is Apply ==> r->ips@ == parsed(%s, %s))''' % (FL, FN, FL, FN)),
                ]))
+    # the START-UP consumer of the same parser (src/sender/mod.rs): the list handed to the sender is exactly the parsable lines, in order
+    u.add('#[verifier::external_body] pub struct AnyhowError { _p: () }\n#[verifier::external_body] pub fn anyhow_ctx(e: FsErr) -> AnyhowError { unimplemented!() }\n')
+    u.add(u.fn('src/sender/mod.rs', 'read_ip_list', sub='reload', ret='r', erase_async=True, props=(),
+               pre_rewrite=[(re.compile(r'let text = std::fs::read_to_string\(Path::new\(path\)\)\s*\.context\("[^"]*"\)\?;'),
+                             'let text = match fs_read_to_string(path) { Ok(t) => t, Err(e) => { return Err(anyhow_ctx(e)); } };', 1)],
+               post_rewrite=[(re.compile(r'\breload::'), '', None), ('-> Result<Vec<IpAddr>>', '-> Result<Vec<IpAddr>, AnyhowError>', 1), ('SmallVec::new()', 'Vec::new()', None)],
+               ensures=[
+                   C('C19.reload.startup.an_unreadable_file_is_an_error', 'spec_file(path@) is None ==> r is Err'),
+                   C('C19.reload.startup.the_start_up_list_is_exactly_the_parsable_lines_in_order', 'spec_file(path@) is Some ==> r is Ok && r->Ok_0@ == parsed(%s, %s)' % (FL, FN)),
+               ]))
     u.add(r'''
 pub proof fn lemma_content_without_parsed_has_invalid(lines: Seq<Seq<char>>, n: int)
     requires 0 <= n <= lines.len(), has_content(lines, n), parsed(lines, n).len() == 0,
